@@ -17,7 +17,7 @@ CFG = {
         "assumptions": ["backbones handed to the advanced entry points stay inside their documented contract (sorted true k-mer matches or subsets, valid chains)", SCORE_RANGE],
     },
     "C03": {
-        "mechanisms": ["sa:texts_with_more_than_65536_lms_substrings", "sais.recurse", "sais.u16_alphabet", "sampled_sa.extra_row", "sa:recursion_depth_2", "lcp_with_values_beyond_i8", "suffix_array_int_calls"],
+        "mechanisms": ["int_texts_over_the_whole_type_range", "sa:texts_with_more_than_65536_lms_substrings", "sais.recurse", "sais.u16_alphabet", "sampled_sa.extra_row", "sa:recursion_depth_2", "lcp_with_values_beyond_i8", "suffix_array_int_calls"],
         "thorough_passes": ["plain", "asan", "miri"],
         "assumptions": ["texts end with a sentinel that is their smallest symbol (the documented precondition)"],
     },
@@ -27,19 +27,19 @@ CFG = {
         "assumptions": ["the suffix array handed to bwt() is the one computed by suffix_array() (C03 decides that one)"],
     },
     "C05": {
-        "mechanisms": ["texts_longer_than_65536", "results:complete", "results:partial", "results:absent", "concurrent_histories", "sampled_sa.extra_row", "occ.hi_checkpoint_back"],
+        "mechanisms": ["index_alphabets_without_the_sentinel", "texts_longer_than_65536", "results:complete", "results:partial", "results:absent", "concurrent_histories", "sampled_sa.extra_row", "occ.hi_checkpoint_back"],
         "thorough_passes": ["plain", "asan", "tsan", "miri"],
         "miri_seeds": 4,
         "pass_cases": {"miri": 14, "tsan": 400},
         "assumptions": ["patterns are non-empty, sentinel-free and over the index alphabet"],
     },
     "C06": {
-        "mechanisms": ["indexes_over_more_than_65536_symbols", "smems_calls_returning_2", "extensions_to_absent_strings", "extensions_to_occurring_strings"],
+        "mechanisms": ["collections_of_118_to_132_sequences", "indexes_over_more_than_65536_symbols", "smems_calls_returning_2", "extensions_to_absent_strings", "extensions_to_occurring_strings"],
         "thorough_passes": ["plain", "asan"],
         "assumptions": ["text = s$revcomp(s)$... over ACGTNacgtn as FMDIndex::from requires"],
     },
     "C07": {
-        "mechanisms": ["trees_with_more_than_65536_entries", "avl.rotate_left", "avl.rotate_right", "avl_double_rotations", "find_mut_queries", "array_unindexed_refusals", "array_unindexed_refusals_after_reinsert", "array_tree_sizes_swept", "histories:annot_map"],
+        "mechanisms": ["array_trees_with_more_than_2^19_entries", "trees_with_more_than_65536_entries", "avl.rotate_left", "avl.rotate_right", "avl_double_rotations", "find_mut_queries", "array_unindexed_refusals", "array_unindexed_refusals_after_reinsert", "array_tree_sizes_swept", "histories:annot_map"],
         "thorough_passes": ["plain", "asan"],
         "assumptions": ["intervals and queries have positive width"],
     },
@@ -54,7 +54,7 @@ CFG = {
         "mechanisms": ["texts_longer_than_65536", "myers_long.block_add", "myers_long.block_drop", "ukkonen.lastk_drop", "distance_pairs", "hamming_pairs"],
         "thorough_passes": ["plain", "asan", "miri"],
         "pass_cases": {"miri": 28},
-        "assumptions": ["k <= 255 for the single-word implementation", "Ukkonen cost functions return values >= 0 with cost(a,a) = 0 for the unit-cost runs"],
+        "assumptions": ["k <= 255 for the single-word implementation", "Ukkonen cost functions return values in 0..=3; a quarter of the cost tables also charge some equal symbols"],
     },
     "C10": {
         "mechanisms": ["texts_longer_than_65536", "myers_tb.ring_wrap", "searches_with_hit_before_column_m", "searches_with_ring_wrap", "lazy_queries", "api:next", "api:next_path", "api:next_alignment", "api:next_end+start+path"],
@@ -68,7 +68,7 @@ CFG = {
         "assumptions": ["record domain: id without whitespace, description without line breaks, sequence over letters and * - . (nothing the formats cannot represent)"],
     },
     "C12": {
-        "mechanisms": ["files_with_more_than_65536_lines", "fasta_idx.zero_base_read", "histories_on_truncated_files", "truncation_errors_reported", "errors_reported:unknown-name", "errors_reported:unknown-rid",
+        "mechanisms": ["indexes_promising_more_than_the_file_holds", "files_with_more_than_65536_lines", "fasta_idx.zero_base_read", "histories_on_truncated_files", "truncation_errors_reported", "errors_reported:unknown-name", "errors_reported:unknown-rid",
                        "errors_reported:stop-beyond-length", "errors_reported:start-after-stop"],
         "thorough_passes": ["plain", "asan"],
         "assumptions": ["the .fai is the one samtools would write for the file (LINEBASES 0 for records without bases)"],
@@ -80,24 +80,24 @@ CFG = {
         "assumptions": ["keys/values avoid the dialect's delimiter, terminator, value separator and quote characters, TAB/CR/LF; chrom/seqname do not start with '#'"],
     },
     "C14": {
-        "mechanisms": ["impossible_sequences", "possible_sequences", "cases_with_tied_best_paths", "state_paths_enumerated"],
+        "mechanisms": ["opt_end_models_used_through_clone", "impossible_sequences", "possible_sequences", "cases_with_tied_best_paths", "state_paths_enumerated"],
         "thorough_passes": ["plain", "asan", "miri"],
         "pass_cases": {"miri": 40},
         "assumptions": ["S <= 4 states and T <= 7 observations so that all S^T paths can be enumerated"],
     },
     "C15": {
-        "mechanisms": ["conversions_below_linear_f64_range", "binary_operand_pairs", "lists", "integration_cases", "conversion_values"],
+        "mechanisms": ["integration_grids_with_more_than_65536_points", "conversions_below_linear_f64_range", "binary_operand_pairs", "lists", "integration_cases", "conversion_values"],
         "thorough_passes": ["plain", "asan"],
         "assumptions": ["relative bounds are evaluated only where the linear image of the largest operand is a normal f64; lists have at most 256 operands"],
     },
     "C16": {
-        "mechanisms": ["graphs_with_more_than_256_nodes", "linear_alignments_longer_than_100", "linear_graph_alignments", "growth_histories", "histories_adding_the_reference_itself", "additions:global_banded", "additions:semiglobal", "additions:local", "additions:custom"],
+        "mechanisms": ["global_alignments_with_suffix_clip_penalties_only", "global_alignments_with_clip_penalties_in_the_scoring", "graphs_with_more_than_256_nodes", "linear_alignments_longer_than_100", "linear_graph_alignments", "growth_histories", "histories_adding_the_reference_itself", "additions:global_banded", "additions:semiglobal", "additions:local", "additions:custom"],
         "thorough_passes": ["plain", "asan", "miri"],
         "pass_cases": {"miri": 24},
         "assumptions": ["linear-graph exactness is checked with default (MIN_SCORE) clip penalties: the property quantifies over match function and gap penalty only"],
     },
     "C17": {
-        "mechanisms": ["rank_select.select_padded_last_byte", "vectors_with_set_padding_bits", "wavelet_texts", "bit_vectors"],
+        "mechanisms": ["dense_vectors_with_more_than_65536_bits_per_superblock", "rank_select.select_padded_last_byte", "vectors_with_set_padding_bits", "wavelet_texts", "bit_vectors"],
         "thorough_passes": ["plain", "asan", "miri"],
         "pass_cases": {"miri": 50},
         "assumptions": [],
